@@ -1,13 +1,13 @@
 SPECIFICATION Spec
 CONSTANTS
   Modes = {"ttl", "range", "serial"}
-  N2 <- MN2
-  C2 <- MC2
-  N3 <- QN3
+  N2 <- TN2
+  C2 <- TC2
+  N3 <- TN3
   C3 <- TC3
-  RTok <- MRTok
+  RTok <- TRTok
   RLen = 5
-  RMidTok <- QRMid
+  RMidTok <- TRMid
   RLongTok <- TRLong
   SBits <- AllBits
 INVARIANT TtlFoldAgrees
